@@ -486,6 +486,15 @@ func (e *env) expr(x ast.Expr) (string, *gtype) {
 		if l, ok := e.lean[key]; ok {
 			return l, e.vars[key]
 		}
+		// X[0] without a length check: index out of range panics on an empty slice
+		if bl, ok := v.Index.(*ast.BasicLit); ok && bl.Value == "0" && e.monad {
+			coll, ct := e.expr(v.X)
+			if ct.kind == "slice" {
+				tmp := e.fresh("h")
+				e.emit(fmt.Sprintf("let %s ← headOrPanic \"%s: index out of range [0]\" %s", tmp, e.fn, coll))
+				return tmp, elemOf(ct)
+			}
+		}
 		e.fail(x, "index expression outside a recognised loop")
 	case *ast.UnaryExpr:
 		if v.Op == token.AND {
